@@ -17,6 +17,35 @@ Put(f, i, v) == (i :> v) @@ f
 SeqSet(s) == {s[i] : i \in 1..Len(s)}
 NonDecreasing(s) == \A i \in 1..(Len(s) - 1) : s[i] <= s[i + 1]
 
+(* ---- binary layout (family 16, serial version 1, compressed form): preamble of 2..9 ints whose ----
+   ---- fields depend on (has HIP, has table, has window); the entropy-coded words are opaque here  ---- *)
+LE(x, n) == [i \in 1..n |-> (x \div (256 ^ (i - 1))) % 256]
+B(e) == [i \in 1..Len(e) |-> e[i]]
+HasHip(st) == ~st.merged
+HasWindow(st) == Flavor(KOf(st), st.c) \in {"pinned", "sliding"}
+HasTable(st) == Flavor(KOf(st), st.c) \in {"sparse", "hybrid"} \/ (HasWindow(st) /\ st.tab # {})
+PreInts(st) == 2 + (IF st.c = 0 THEN 0
+                    ELSE 1 + (IF HasHip(st) THEN 4 ELSE 0)
+                           + (IF HasTable(st) THEN 1 + (IF HasWindow(st) THEN 1 ELSE 0) ELSE 0)
+                           + (IF HasWindow(st) THEN 1 ELSE 0))
+\* sh: seed hash (2 bytes); hipb: kxp and the HIP accumulator (16 bytes); nt / nw: number of table / window words
+CpcHeader(st, sh, hipb, nt, nw) ==
+  LET both == HasTable(st) /\ HasWindow(st)
+      flags == 2 + (IF HasHip(st) THEN 4 ELSE 0) + (IF HasTable(st) THEN 8 ELSE 0) + (IF HasWindow(st) THEN 16 ELSE 0) IN
+  <<PreInts(st), 1, 16, st.lgk, st.fic, flags>> \o sh
+  \o (IF st.c = 0 THEN <<>>
+      ELSE LE(st.c, 4)
+           \o (IF both THEN LE(Cardinality(st.tab), 4) \o (IF HasHip(st) THEN hipb ELSE <<>>) ELSE <<>>)
+           \o (IF HasTable(st) THEN LE(nt, 4) ELSE <<>>)
+           \o (IF HasWindow(st) THEN LE(nw, 4) ELSE <<>>)
+           \o (IF HasHip(st) /\ ~both THEN hipb ELSE <<>>))
+ImgOK(st, e) ==
+  ("img" \in DOMAIN e) =>
+    LET h == CpcHeader(st, B(e.sh), B(e.hipb), e.nt, e.nw) IN
+    /\ Len(h) = 4 * PreInts(st)
+    /\ SubSeq(B(e.img), 1, Len(h)) = h
+    /\ Len(e.img) = Len(h) + 4 * ((IF HasTable(st) THEN e.nt ELSE 0) + (IF HasWindow(st) THEN e.nw ELSE 0))
+
 Sc(st) == [c |-> st.c, off |-> st.off, fic |-> st.fic, nt |-> Cardinality(st.tab), w |-> Windowed(st)]
 
 \* full state as logged from CpcSketch::verif_state()
@@ -64,6 +93,7 @@ TrChk ==
   /\ IsEv("PChk")
   /\ (On("C05") \/ On("C06")) => (FullOK(obj[Ev.id], Ev) /\ Matrix(obj[Ev.id]) = bits[Ev.id])
   /\ ObsOK(obj[Ev.id], Ev.o)
+  /\ On("C12") => ImgOK(obj[Ev.id], Ev)
   /\ On("C18") => Ev.len <= Ev.maxlen \/ Ev.over     \* counted by the driver, see C18
   /\ UNCHANGED <<obj, bits, uni, ubits>>
 
